@@ -495,6 +495,18 @@ class _Generator(Generator):
                                      type_.root_number_of_bits)
         ]
 
+        if type_.additions_index_to_data is not None:
+            # Extension bit. Only the root enumeration is supported.
+            encode_lines.insert(-1, 'encoder_append_bool(encoder_p, false);')
+            decode_lines = [
+                'if (decoder_read_bool(decoder_p)) {',
+                '    decoder_abort(decoder_p, EBADENUM);',
+                '',
+                '    return;',
+                '}',
+                ''
+            ] + decode_lines
+
         if bin(len(self.get_enumerated_values(type_))).count('1') != 1 and (not
            value_mapping_required):
             decode_lines += [
